@@ -241,6 +241,17 @@ fn build_afs(t: &Term, tmp: &mut Vec<PathBuf>, rt: &tokio::runtime::Runtime) -> 
             Box::new(AsyncOverlayFS::new(&roots))
         }
         Term::Fault(inner) => build_afs(inner, tmp, rt),
+        Term::OvlShared(n) => {
+            let shared = AsyncVfsPath::new(AsyncMemoryFS::new());
+            let roots: Vec<AsyncVfsPath> = (1..=*n)
+                .map(|i| {
+                    let d = shared.join(format!("zl{i}")).unwrap();
+                    rt.block_on(d.create_dir()).unwrap();
+                    AsyncVfsPath::new(AsyncAltrootFS::new(d))
+                })
+                .collect();
+            Box::new(AsyncOverlayFS::new(&roots))
+        }
     }
 }
 pub fn abuild(cfg: &str, pending: bool) -> AWorld {
@@ -453,6 +464,7 @@ pub fn asup(t: &Term) -> Vec<&'static str> {
         Term::Phys => vec!["mo", "ac"],
         Term::Alt(_, t) | Term::Fault(t) => asup(t),
         Term::Ovl(v) => asup(&v[0]),
+        Term::OvlShared(_) => vec![],
     }
 }
 
